@@ -7,5 +7,6 @@ CONSTANTS
   MaxLen = 6
   MaxTimeouts = 1
   MaxForged = 0
+  MaxFire = 0
 INVARIANTS OneFinalisationPerSlot
 CHECK_DEADLOCK FALSE
